@@ -376,6 +376,10 @@ for (sid, rule) in [("C01", "D3-mem"), ("C02", "L2-index"), ("C03", "D3"), ("C04
 for (sid, rule) in [("C01-a5", "T-get-immutable"), ("C05-a5", "T-unschedule"), ("C06-a5", "T-remaining-term"), ("C08-a5", "T-settle-rebase"), ("C09-a5", "T-msg-immutable"),
                     ("C11-a5", "T-extend-meta"), ("C13-a5", "T-shard-owner"), ("C15-a5", "T-permute"), ("C16-a5", "T-status-forward"), ("C19-a5", "T-flag-reset")]:
     P.append(("RS-" + sid, sid.split("-")[0], rule, f"/verif/refactored_seeds/{sid}/combined.diff"))
+# refactor-of-seed composites on round-6 seeds
+for (sid, rule) in [("C02-a6", "L2-index"), ("C04-a6", "T-fresh-if-missing"), ("C07-a6", "T-debt-repay"), ("C09-a6", "T-perm-applied"), ("C10-a6", "T-decode-fresh"),
+                    ("C13-a6", "G-renew-shards"), ("C16-a6", "G-inflight"), ("C18-a6", "T-validate-map")]:
+    P.append(("RS-" + sid, sid.split("-")[0], rule, f"/verif/refactored_seeds/{sid}/combined.diff"))
 import glob as _glob
 for d in sorted(_glob.glob("/verif/refactors/R[0-9][0-9]")):
     rid = os.path.basename(d)
